@@ -22,6 +22,7 @@ import PV.Model.Names
 import PV.Model.Gls
 import PV.Model.Tree
 import PV.Model.Text
+import PV.Model.JsonDoc
 
 open Lean PV PV.Wire
 
@@ -494,6 +495,49 @@ def opTextBlock (j : Json) : Except String Json := do
   | none => pure (obj [("exc", .str "eof"), ("nlines", enc lines.length)])
   | some blk => pure (obj [("lines", enc (blk.map String.ofList)), ("nlines", enc lines.length)])
 
+/-- wire form of `JsonDoc.SDoc Float` -/
+def encSDoc (d : JsonDoc.SDoc Float) : Json :=
+  obj [("value", enc d.value),
+       ("data", .arr (d.data.map (fun e => obj [("id", .str e.id),
+          ("replica", .arr (e.replica.map (fun r => obj [("name", .str r.name),
+             ("cfgs", enc (r.rows.map (·.1))), ("x", enc (r.rows.map (·.2)))])).toArray)])).toArray),
+       ("cdata", .arr (d.cdata.map (fun c => obj [("id", .str c.id), ("shape", enc c.shape), ("cov", enc c.cov),
+          ("grad", enc c.grad)])).toArray),
+       ("reweighted", .bool d.reweighted)]
+
+def decSDoc (j : Json) : Except String (JsonDoc.SDoc Float) := do
+  let value : List Float ← get j "value"
+  let dataJ : List Json ← get j "data"
+  let data ← dataJ.mapM (fun e => do
+    let id : String ← get e "id"
+    let repJ : List Json ← get e "replica"
+    let replica ← repJ.mapM (fun r => do
+      let name : String ← get r "name"
+      let cfgs : List Int ← get r "cfgs"
+      let x : List (List Float) ← get r "x"
+      pure ({ name := name, rows := List.zip cfgs x } : JsonDoc.RepDoc Float))
+    pure ({ id := id, replica := replica } : JsonDoc.EnsDoc Float))
+  let cdataJ : List Json ← get j "cdata"
+  let cdata ← cdataJ.mapM (fun c => do
+    pure ({ id := ← get c "id", shape := ← get c "shape", cov := ← get c "cov", grad := ← get c "grad" } : JsonDoc.CovDoc Float))
+  pure { value := value, data := data, cdata := cdata, reweighted := ← get j "reweighted" }
+
+/-- op "jsondoc": {"what": "write", "obs": [Obs]} -> {"doc": SDoc};
+                  {"what": "read", "doc": SDoc, "k": n} -> {"obs": [Obs]} | {"exc": kind} -/
+def opJsonDoc (j : Json) : Except String Json := do
+  let what : String ← get j "what"
+  match what with
+  | "write" => do
+    let ol : List (Obs Float) ← get j "obs"
+    pure (obj [("doc", encSDoc (JsonDoc.toDoc ol))])
+  | "read" => do
+    let d ← decSDoc (← field j "doc")
+    let k : Nat ← get j "k"
+    match JsonDoc.fromDoc d k with
+    | .ok ol => pure (obj [("obs", enc ol)])
+    | .error e => pure (obj [("exc", .str (reprStr e))])
+  | _ => throw s!"unknown jsondoc request {what}"
+
 def dispatch (op : String) (j : Json) : Except String Json :=
   match op with
   | "gamma" => opGamma false j
@@ -515,6 +559,7 @@ def dispatch (op : String) (j : Json) : Except String Json :=
   | "ift" => opIft j
   | "tree" => opTree j
   | "textblock" => opTextBlock j
+  | "jsondoc" => opJsonDoc j
   | "sortnames" => opSortNames j
   | "select" => opSelect j
   | "jsonrep" => opJsonRep j
